@@ -209,6 +209,10 @@ def compare_sims(impl, model, stats, fails):
             if len(f) == 6:
                 k = "timec%s/action%s%s" % (f[0], f[2], "/suspended" if f[5] == "1" else "")
                 stats["sim_rules"][k] = stats["sim_rules"].get(k, 0) + 1
+                if f[0] == "1" and unhx(f[3]) not in ("show_ticks", "show_io_pre", "show_io_post") or \
+                        (f[0] == "1" and f[5] == "1"):
+                    k2 = unhx(f[3]) + ("/suspended" if f[5] == "1" else "")
+                    stats["config_rules"][k2] = stats["config_rules"].get(k2, 0) + 1
         shows = sum(1 for l in a["lines"] if l.startswith("W "))
         rows = sum(1 for l in a["lines"] if l.startswith("C row="))
         stats["show_lines"] += shows
@@ -337,7 +341,7 @@ def new_stats():
     return {"strings": 0, "accepted": 0, "rejected": 0, "histories": 0, "edits": 0, "edits_rejected": 0,
             "prints_with_suspended": 0, "by_edit": {}, "forms": {}, "distinct": set(),
             "sims": 0, "ticks": 0, "exit": {}, "sim_rules": {}, "show_lines": 0, "report_rows": 0,
-            "distinct_sim": set(), "suspension_differentials": 0}
+            "distinct_sim": set(), "suspension_differentials": 0, "config_rules": {}}
 
 
 def corpus_files():
@@ -404,8 +408,11 @@ def run(rep):
         "rule": "text: every documented example, the grid {absolute,relative}x{set,get,show}x{27 tick spellings}x{4,5 words}, "
                 "event and config forms with every option, every object mnemonic kind, seeded mostly-valid and malformed "
                 "strings; histories of add/del/suspend/reactivate (in and out of range) followed by JSON save+load; "
-                "sim: 13 fixed cases + seeded rule lists (absolute/periodic set, get, show, on-valid, on-exit, on-recv, config, "
-                "suspended and deleted rules, rejected rules) on 3 machines run through the real CLI. non-trivial = distinct "
+                "sim: 25 fixed cases + seeded rule lists (absolute/periodic set, get, show, on-valid, on-exit, on-recv, config, "
+                "suspended and deleted rules, rejected rules; one list in three opens with a bulk/plain config rule "
+                "(get_all, get_all_internal, show_all, show_all_internal x format, get_ticks, show_*), active or suspended, "
+                "followed by timed get/show rules in another format on elements it covers) on 3 machines run through the real CLI; "
+                "every list with a suspended rule is also run with the suspended rules deleted and compared byte for byte. non-trivial = distinct "
                 "accepted rules + distinct simulations that completed and injected, showed or reported something",
         "samples": samples or [{"note": "correspondence did not run"}],
         "traces_validated_against_impl": stats["histories"] + stats["sims"],
